@@ -148,8 +148,16 @@ def convert(raw, sid):
     if prog in ("echo", "echoraw") or withstatus:
         nsync += 2      # one more write re-records the last-applied annotation in the echoed form (Recreate: a delete, then a create)
     sched = []
-    for _ in range(nsync):
+    for i_sync in range(nsync):
         sched += [{"s": "sync", "a": "A", "key": key}, {"s": "run", "a": "A"}, {"s": "deliver"}]
+        if withstatus and i_sync == 2 and raw["pre"] and sc["childRes"] != "configmaps":
+            # the children's own controller reports exactly the status the hook keeps handing back
+            for n in sorted(raw["fix"]):
+                st = {"s": "env", "op": "setstatus", "res": sc["childRes"], "name": loc(n)[1], "path": ["ready"], "value": "yes"}
+                if loc(n)[0]:
+                    st["ns"] = loc(n)[0]
+                sched.append(st)
+            sched.append({"s": "deliver"})
     expect = {"model": {"syncs": raw["syncs"], "pre": raw["pre"]}}
     if raw["pre"]:
         fixf = {("spec.f1" if sc["top"] == "spec" else "data.f1"): "s:v1"}
